@@ -39,7 +39,7 @@ type c03Mut struct {
 func TestC03(t *testing.T) {
 	r := report.Start("C03")
 	defer r.Finish()
-	nbases := r.Pick(48, 1600)
+	nbases := r.Cases(48, 1600)
 	for i := 0; i < nbases; i++ {
 		id := fmt.Sprintf("base/%d", i)
 		if !r.Want(id, i) {
@@ -47,7 +47,7 @@ func TestC03(t *testing.T) {
 		}
 		c03Base(r, id, c03Kinds[i%len(c03Kinds)])
 	}
-	nseq := r.Pick(160, 4800)
+	nseq := r.Cases(160, 4800)
 	for i := 0; i < nseq; i++ {
 		id := fmt.Sprintf("nonce/%d", i)
 		if !r.Want(id, i) {
